@@ -43,6 +43,9 @@
 //! * `e2x <L|E> <t|n> <cause>` — `Endpoint::connect_with_connector[_lazy]` (with / without a
 //!   connect timeout) whose connector fails every attempt with the error `<cause>`; two calls
 //!   (lazy) or the build (eager); observed: code, attempts, and the walk of the error the caller got.
+//! * added by the dimension audit (details in `c14_x.rs`): `e2c` (`Channel::new` / `Channel::connect`
+//!   called directly), `e2d` options `y k o x w b` and the ops `h` (peer goes silent, with `k`) and `a`
+//!   (abandoned call), `net` with the other `Endpoint` constructors.
 use crate::common::*;
 use std::collections::VecDeque;
 use std::future::Future;
@@ -52,6 +55,9 @@ use std::task::{Context, Poll, Wake, Waker};
 use std::time::Duration;
 use tonic::transport::verif_hooks::ReconnectHook;
 use tower::{Service, ServiceExt};
+
+#[path = "c14_x.rs"]
+mod c14_x;
 
 // ------------------------------------------------------------------------------------------
 // generator
@@ -756,6 +762,7 @@ pub fn generate(tier: &str, rng: &mut Rng) -> Vec<String> {
             }
         }
     }
+    c14_x::generate_x(thorough, rng, &mut out);
     spread_real_time_cases(out)
 }
 
@@ -1167,27 +1174,68 @@ struct World {
     shutdowns: Vec<tokio::sync::oneshot::Sender<()>>,
     /// handed to every server: `Hold` requests announce themselves here
     arrived: tokio::sync::mpsc::UnboundedSender<usize>,
+    /// `h`: makes the cable of a connection stop carrying bytes while both ends stay open
+    freezers: Vec<tokio::sync::oneshot::Sender<()>>,
+    /// the only URI a connection can be made to (anything else is refused, as a network would)
+    target: Option<http::Uri>,
+    /// `A`: the next connection attempt announces itself on `started` and then waits at `gate`
+    hold: bool,
+    gate: Arc<tokio::sync::Notify>,
+    started: tokio::sync::mpsc::UnboundedSender<()>,
 }
 
+/// `.1`: the readiness protocol of a strict connector (`y`): 0 = `call` not allowed (the next
+/// `poll_ready` answers `Pending` once and wakes), 1 = `Pending` was answered, 2 = ready said;
+/// 255 = not strict (always ready, `call` any time).
 #[derive(Clone)]
-struct ScriptConnector(Arc<Mutex<World>>);
+struct ScriptConnector(Arc<Mutex<World>>, u8);
 
 impl Service<http::Uri> for ScriptConnector {
     type Response = hyper_util::rt::TokioIo<tokio::io::DuplexStream>;
     type Error = std::io::Error;
     type Future = Pin<Box<dyn Future<Output = Result<Self::Response, Self::Error>> + Send>>;
-    fn poll_ready(&mut self, _cx: &mut Context<'_>) -> Poll<Result<(), Self::Error>> {
-        Poll::Ready(Ok(()))
+    fn poll_ready(&mut self, cx: &mut Context<'_>) -> Poll<Result<(), Self::Error>> {
+        match self.1 {
+            0 => {
+                self.1 = 1;
+                cx.waker().wake_by_ref();
+                Poll::Pending
+            }
+            1 => {
+                self.1 = 2;
+                Poll::Ready(Ok(()))
+            }
+            _ => Poll::Ready(Ok(())),
+        }
     }
-    fn call(&mut self, _uri: http::Uri) -> Self::Future {
+    fn call(&mut self, uri: http::Uri) -> Self::Future {
+        if self.1 != 255 {
+            // tower's contract, insisted on: `call` only after `poll_ready` said ready
+            assert!(self.1 == 2, "connector called without poll_ready");
+            self.1 = 0;
+        }
         let world = self.0.clone();
-        let (id, outcome) = {
+        let (id, outcome, held) = {
             let mut w = world.lock().unwrap();
             w.attempts += 1;
             // past the end of the script every attempt fails
-            (w.attempts, w.outcomes.pop_front().unwrap_or('F'))
+            let o = w.outcomes.pop_front().unwrap_or('F');
+            // an attempt to reach anything but the endpoint's own URI reaches nothing
+            let wrong = w.target.as_ref().map(|t| *t != uri).unwrap_or(false);
+            let held = if w.hold {
+                w.hold = false;
+                let _ = w.started.send(());
+                Some(w.gate.clone())
+            } else {
+                None
+            };
+            (w.attempts, if wrong { 'F' } else { o }, held)
         };
         Box::pin(async move {
+            if let Some(gate) = held {
+                // in progress until the script lets it go on
+                gate.notified().await;
+            }
             if outcome.is_ascii_lowercase() {
                 tokio::time::sleep(Duration::from_millis(5)).await;
             }
@@ -1211,10 +1259,19 @@ impl Service<http::Uri> for ScriptConnector {
                             .await;
                     });
                     world.lock().unwrap().shutdowns.push(stop_tx);
+                    let (fz_tx, fz_rx) = tokio::sync::oneshot::channel::<()>();
                     let cable = tokio::spawn(async move {
-                        let _ = tokio::io::copy_bidirectional(&mut cable_a, &mut cable_b).await;
+                        tokio::select! {
+                            _ = tokio::io::copy_bidirectional(&mut cable_a, &mut cable_b) => {}
+                            // the peer goes silent: nothing is carried any more, nothing is closed
+                            Ok(()) = fz_rx => std::future::pending::<()>().await,
+                        }
                     });
-                    world.lock().unwrap().cables.push((id, cable));
+                    {
+                        let mut w = world.lock().unwrap();
+                        w.cables.push((id, cable));
+                        w.freezers.push(fz_tx);
+                    }
                     Ok(hyper_util::rt::TokioIo::new(client_io))
                 }
                 'T' => {
@@ -1290,15 +1347,25 @@ fn run_e2e(lazy: bool, outcomes: &str, ops: &str, with_timeout: bool, opts: &str
     let rt = paused_rt();
     rt.block_on(async move {
         let (arrived_tx, mut arrived_rx) = tokio::sync::mpsc::unbounded_channel::<usize>();
+        let (started_tx, mut started_rx) = tokio::sync::mpsc::unbounded_channel::<()>();
+        let gate = Arc::new(tokio::sync::Notify::new());
         let world = Arc::new(Mutex::new(World {
             outcomes: outcomes.chars().filter(|c| *c != '-').collect(),
             attempts: 0,
             cables: Vec::new(),
             shutdowns: Vec::new(),
             arrived: arrived_tx,
+            freezers: Vec::new(),
+            target: Some(http::Uri::from_static("http://verif.invalid:50051")),
+            hold: false,
+            gate: gate.clone(),
+            started: started_tx,
         }));
-        let connector = ScriptConnector(world.clone());
+        // `y`: a connector that insists on tower's readiness protocol (`Pending` first, `call` only
+        // after `Ready`)
+        let connector = ScriptConnector(world.clone(), if opts.contains('y') { 0 } else { 255 });
         let endpoint = tonic::transport::Endpoint::from_static("http://verif.invalid:50051");
+        let endpoint = c14_x::configure(endpoint, opts);
         // with a connect timeout the connector is wrapped in hyper_timeout's TimeoutConnector
         // (one code path of connect_with_connector[_lazy]); without, it is used directly
         let endpoint = if with_timeout {
@@ -1316,13 +1383,25 @@ fn run_e2e(lazy: bool, outcomes: &str, ops: &str, with_timeout: bool, opts: &str
         let endpoint = if rate_limit { endpoint.rate_limit(1, Duration::from_millis(80)) } else { endpoint };
         let mut out: Vec<String> = Vec::new();
         let attempts = |w: &Arc<Mutex<World>>| w.lock().unwrap().attempts;
+        // `D` (kind `e2c`): the lower-level public entry points `Channel::new` / `Channel::connect`,
+        // which take the user's connector as it is (no `Connector` wrapper, no `TimeoutConnector`)
+        let direct = opts.contains('D');
         let channel = if lazy {
-            let ch = endpoint.connect_with_connector_lazy(connector);
+            let ch = if direct {
+                tonic::transport::Channel::new(connector, endpoint.clone())
+            } else {
+                endpoint.connect_with_connector_lazy(connector)
+            };
             tokio::time::sleep(QUIESCE).await;
             out.push(format!("build:ok:a{}", attempts(&world)));
             ch
         } else {
-            match tokio::time::timeout(WATCHDOG, endpoint.connect_with_connector(connector)).await {
+            let building: Pin<Box<dyn Future<Output = Result<tonic::transport::Channel, tonic::transport::Error>> + Send>> = if direct {
+                Box::pin(tonic::transport::Channel::connect(connector, endpoint.clone()))
+            } else {
+                Box::pin(endpoint.connect_with_connector(connector))
+            };
+            match tokio::time::timeout(WATCHDOG, building).await {
                 Err(_) => {
                     out.push(format!("build:hang:a{}", attempts(&world)));
                     return out.join(" ");
@@ -1369,6 +1448,109 @@ fn run_e2e(lazy: bool, outcomes: &str, ops: &str, with_timeout: bool, opts: &str
                     }
                     tokio::time::sleep(QUIESCE).await;
                     out.push("d".into());
+                }
+                'h' => {
+                    // the peer goes silent: its connections stay open and carry nothing any more.
+                    // Only with the HTTP/2 keep-alive options (`k`), which make the client notice
+                    // and give the connection up: from then on the same fault as `d`
+                    let fz: Vec<_> = world.lock().unwrap().freezers.drain(..).collect();
+                    for f in fz {
+                        let _ = f.send(());
+                    }
+                    tokio::time::sleep(QUIESCE).await;
+                    out.push("d".into());
+                }
+                'A' => {
+                    // a call that the application abandons (drops the future of) IF it has to wait
+                    // for a connection attempt: the attempt it triggers is held in progress, the
+                    // call is dropped, the attempt goes on and ends as the script says — with nobody
+                    // waiting for it. A call that needs no new attempt completes as usual.
+                    while started_rx.try_recv().is_ok() {}
+                    world.lock().unwrap().hold = true;
+                    let fut = async {
+                        client.ready().await.map_err(ready_err)?;
+                        let path = http::uri::PathAndQuery::from_static("/verif.WhoAmI/Who");
+                        client
+                            .unary::<Vec<u8>, Vec<u8>, _>(tonic::Request::new(b"hi".to_vec()), path, raw::RawCodec)
+                            .await
+                            .map(|resp| String::from_utf8_lossy(resp.get_ref()).to_string())
+                            .map_err(status_err)
+                    };
+                    let fut: Pin<Box<dyn Future<Output = Result<String, (tonic::Status, String)>> + '_>> = Box::pin(fut);
+                    let mut fut = Some(fut);
+                    let first = tokio::time::timeout(WATCHDOG, async {
+                        tokio::select! {
+                            biased;
+                            r = fut.as_mut().unwrap() => Ok(r),
+                            _ = started_rx.recv() => Err(()),
+                        }
+                    })
+                    .await;
+                    world.lock().unwrap().hold = false;
+                    drop(fut.take());
+                    let (tok, stop) = match first {
+                        Err(_) => (format!("c:hang:a{}", attempts(&world)), true),
+                        Ok(Ok(r)) => {
+                            tokio::time::sleep(QUIESCE).await;
+                            call_tok(Ok(r), attempts(&world))
+                        }
+                        Ok(Err(())) => {
+                            gate.notify_one();
+                            tokio::time::sleep(QUIESCE).await;
+                            (format!("A:a{}", attempts(&world)), false)
+                        }
+                    };
+                    out.push(tok);
+                    if stop {
+                        break;
+                    }
+                }
+                'a' => {
+                    // a call the application abandons (drops the future of) once the request has
+                    // reached the peer's handler: reported like an answered call (it got as far
+                    // as live connection `id`); what matters is what the calls after it see
+                    while arrived_rx.try_recv().is_ok() {}
+                    let fut = async {
+                        client.ready().await.map_err(ready_err)?;
+                        let path = http::uri::PathAndQuery::from_static("/verif.WhoAmI/Hold");
+                        let mut req = tonic::Request::new(b"hi".to_vec());
+                        if endpoint_timeout.is_none() {
+                            // not to be mistaken for a deadline-less call by any layer
+                            req.set_timeout(Duration::from_secs(7200));
+                        }
+                        client
+                            .unary::<Vec<u8>, Vec<u8>, _>(req, path, raw::RawCodec)
+                            .await
+                            .map(|resp| String::from_utf8_lossy(resp.get_ref()).to_string())
+                            .map_err(status_err)
+                    };
+                    let fut: Pin<Box<dyn Future<Output = Result<String, (tonic::Status, String)>> + '_>> = Box::pin(fut);
+                    let mut fut = Some(fut);
+                    let first = tokio::time::timeout(WATCHDOG, async {
+                        tokio::select! {
+                            biased;
+                            r = fut.as_mut().unwrap() => Ok(r),
+                            id = arrived_rx.recv() => Err(id),
+                        }
+                    })
+                    .await;
+                    // abandoned here, whatever state it is in
+                    drop(fut.take());
+                    tokio::time::sleep(QUIESCE).await;
+                    let a = attempts(&world);
+                    let (tok, stop) = match first {
+                        Err(_) => (format!("c:hang:a{}", a), true),
+                        Ok(Ok(r)) => {
+                            let (t, s) = call_tok(Ok(r), a);
+                            let zero = endpoint_timeout == Some(Duration::ZERO);
+                            (if zero && t.starts_with("c:resp") { format!("c:exp:a{}", a) } else { t }, s)
+                        }
+                        Ok(Err(id)) => (format!("c:resp{}:a{}", id.unwrap_or(0), a), false),
+                    };
+                    out.push(tok);
+                    if stop {
+                        break;
+                    }
                 }
                 'd' => {
                     // the peer drops every established connection
@@ -1905,7 +2087,7 @@ fn run_net(transport: &str, lazy: bool, script: &str) -> String {
     let out = rt.block_on(async move {
         let (arrived, _arrived_rx) = tokio::sync::mpsc::unbounded_channel::<usize>();
         let cables: Cables = Arc::new(Mutex::new(Vec::new()));
-        let mut addr = if transport == "tcp" {
+        let mut addr = if transport.starts_with("tcp") {
             let sock = match reserve_tcp(0) {
                 Some(s) => s,
                 None => return "env:cannot-bind".to_string(),
@@ -1916,13 +2098,14 @@ fn run_net(transport: &str, lazy: bool, script: &str) -> String {
             let n = NET_SEQ.fetch_add(1, std::sync::atomic::Ordering::SeqCst);
             NetAddr::Uds(std::env::temp_dir().join(format!("verif-c14-{}-{}.sock", std::process::id(), n)))
         };
-        let uri = match &addr {
-            NetAddr::Tcp(port, _) => format!("http://127.0.0.1:{}", port),
-            NetAddr::Uds(path) => format!("unix:{}", path.display()),
+        // the constructor the case names (`tcp` / `uds`: `Endpoint::from_shared`)
+        let built = match &addr {
+            NetAddr::Tcp(port, _) => c14_x::net_endpoint(transport, Some(format!("http://127.0.0.1:{}", port)), None),
+            NetAddr::Uds(path) => c14_x::net_endpoint(transport, None, Some(path.display().to_string())),
         };
-        let endpoint = match tonic::transport::Endpoint::from_shared(uri) {
-            Ok(e) => e,
-            Err(_) => return "env:bad-uri".to_string(),
+        let endpoint = match built {
+            Some(e) => e,
+            None => return "env:bad-uri".to_string(),
         };
         let mut gen = 0usize;
         let mut accept: Option<tokio::task::JoinHandle<()>> = None;
@@ -2291,12 +2474,28 @@ pub fn execute(case: &str) -> String {
             Ok(n) => run_sess(*m == "L", env, n),
             Err(_) => "bad-case".into(),
         },
-        ["e2e", m, outs, ops] if *m == "L" || *m == "E" => run_e2e(*m == "L", outs, ops, true, ""),
-        ["e2n", m, outs, ops] if *m == "L" || *m == "E" => run_e2e(*m == "L", outs, ops, false, ""),
-        ["e2d", m, et, outs, ops] if (*m == "L" || *m == "E") && (*et == "-" || et.chars().all(|c| "znslqr".contains(c))) => {
+        ["e2e", m, outs, ops] if (*m == "L" || *m == "E") && !ops.contains('h') && !ops.contains('A') => run_e2e(*m == "L", outs, ops, true, ""),
+        ["e2n", m, outs, ops] if (*m == "L" || *m == "E") && !ops.contains('h') && !ops.contains('A') => run_e2e(*m == "L", outs, ops, false, ""),
+        ["e2a", m, outs, ops]
+            if (*m == "L" || *m == "E")
+                && ops.chars().all(|c| "cdA-".contains(c))
+                && outs.chars().all(|c| "FSXfsx-".contains(c)) =>
+        {
+            run_e2e(*m == "L", outs, ops, true, "")
+        }
+        ["e2c", m, outs, ops] if (*m == "L" || *m == "E") && !ops.contains('h') && !ops.contains('A') => run_e2e(*m == "L", outs, ops, false, "D"),
+        ["e2d", m, et, outs, ops]
+            if (*m == "L" || *m == "E")
+                && (*et == "-" || et.chars().all(|c| "znslqrykxowb".contains(c)))
+                // a silent peer is only noticed with the keep-alive options; a one-slot buffer
+                // cannot hold the two requests of `p` the way the harness issues them
+                && (!ops.contains('h') || et.contains('k'))
+                && !ops.contains('A')
+                && !(ops.contains('p') && et.contains('b')) =>
+        {
             run_e2e(*m == "L", outs, ops, true, if *et == "-" { "" } else { et })
         }
-        ["net", tr, m, script] if (*tr == "tcp" || *tr == "uds") && (*m == "L" || *m == "E") => run_net(tr, *m == "L", script),
+        ["net", tr, m, script] if c14_x::is_net_ctor(tr) && (*m == "L" || *m == "E") => run_net(tr, *m == "L", script),
         ["bal", "list", eps, script] => run_bal(true, eps, script),
         ["bal", "chan", eps, script] => run_bal(false, eps, script),
         ["cls", chain] => run_cls(chain),
